@@ -1894,17 +1894,15 @@ struct Value {
                 const Value *end = array_.End();
 
                 while (item_ != end) {
-                    if ((item_ != nullptr) && item_->isObject()) {
-                        SizeT count = 0;
-
-                        const VItem *obj_item = item_->object_.First();
-                        const VItem *obj_end  = item_->object_.End();
+                    // The key can sit anywhere: look it up in every object, not only in the first one.
+                    if (item_->isObject() && item_->object_.GetKeyIndex(grouped_key_index, key, length)) {
+                        const VItem *obj_first = item_->object_.First();
+                        const VItem *obj_item  = obj_first;
+                        const VItem *obj_end   = item_->object_.End();
 
                         while (obj_item != obj_end) {
-                            if ((obj_item != nullptr) && !(obj_item->Value.isUndefined())) {
-                                if (count != grouped_key_index) {
-                                    new_sub_obj[obj_item->Key] = obj_item->Value;
-                                } else if (!(obj_item->Value.SetCharAndLength(str, str_len))) {
+                            if (SizeT(obj_item - obj_first) == grouped_key_index) {
+                                if (!(obj_item->Value.SetCharAndLength(str, str_len))) {
                                     stream.Clear();
 
                                     if (obj_item->Value.CopyValueTo(stream)) {
@@ -1914,13 +1912,13 @@ struct Value {
                                         return false;
                                     }
                                 }
-
-                                ++count;
-                                ++obj_item;
-                                continue;
+                            } else if (!(obj_item->Value.isUndefined())) {
+                                new_sub_obj[obj_item->Key] = obj_item->Value;
+                            } else {
+                                return false;
                             }
 
-                            return false;
+                            ++obj_item;
                         }
 
                         groupedValue.object_.Get(str, str_len) += Memory::Move(new_sub_obj);
